@@ -82,5 +82,7 @@ package config
 //@   modifies *
 //@   sets compiledOKContent := ite(result1.OK && cfg == lastParsedCfg, lastParsed, old(compiledOKContent))
 //@   loop 2 invariant [pull_routes_have_own_tokens_or_the_flag_is_set] forall k int :: 0 <= k && k < len(routes) && routes[k].Pull != nil ==> hasPullRoutes && (len(routes[k].Pull.AuthTokens) > 0 || pullRoutesMissingAuth)
+//@   loop 2 invariant [compiled_hmac_tolerance_is_unset_or_positive] forall k int :: 0 <= k && k < len(routes) ==> routes[k].AuthHMACTolerance >= 0
+//@   ensures [C08:a_compiled_hmac_tolerance_is_unset_or_positive] forall k int :: 0 <= k && k < len(result0.Routes) ==> result0.Routes[k].AuthHMACTolerance >= 0
 //@   ensures [C11:compiled_pull_routes_have_a_nonempty_effective_allowlist] result1.OK ==> forall k int :: 0 <= k && k < len(result0.Routes) && result0.Routes[k].Pull != nil ==> len(result0.Routes[k].Pull.AuthTokens) > 0 || len(result0.PullAPI.AuthTokens) > 0
 //@   ensures [C11:ok_means_no_validation_error] result1.OK <==> len(result1.Errors) == 0
